@@ -125,6 +125,15 @@ theorem rawStep_supply (tier : Denom → Bool) (s : State) (op : Op) (hmb : op.i
   cases op with
   | send f t amt => exact sendCoins_supply ..
   | sendU f t amt => exact sendCore_supply ..
+  | fee a c fees =>
+    simp only [rawStep, deductFees]
+    split
+    · rfl
+    · split
+      · rfl
+      · split
+        · rfl
+        · exact sendCore_supply ..
   | multi ins outs => exact inputOutput_supply ..
   | mint a amt => simp [Op.isMintBurn] at hmb
   | burn a amt => simp [Op.isMintBurn] at hmb
